@@ -995,6 +995,7 @@ func (w *bWorld) clientStep(d *bDID) {
 
 	// anchoring window: mostly generous (operations must normally survive queueing), sometimes tight
 	now := int64(w.ledgerNow())
+	hugeWindow := false
 
 	switch k.Draw(6, "client.window") {
 	case 0:
@@ -1002,6 +1003,14 @@ func (w *bWorld) clientStep(d *bDID) {
 	case 1:
 		spec.From = now - int64(k.Draw(3, "client.from"))
 		spec.Until = now + int64(5+k.Draw(300, "client.until"))
+	case 2:
+		// a window that "never" closes, written with a very large number (beyond 2^53 a JSON number is no longer exact:
+		// the builder must either refuse such a window or produce a request that parses back to exactly it)
+		if k.Draw(6, "client.window.huge") == 0 {
+			spec.From = now - 1
+			spec.Until = []int64{1<<63 - 1, 1<<53 + 1, 1790000000123456789}[k.Draw(3, "client.window.huge.which")]
+			hugeWindow = true
+		}
 	}
 
 	if w.useUnpub && spec.Until != 0 {
@@ -1057,6 +1066,12 @@ func (w *bWorld) clientStep(d *bDID) {
 
 	req, err := workload.Build(spec)
 	if err != nil {
+		if hugeWindow {
+			k.Count("probe:builder-refused-inexact-window")
+
+			return // a window that cannot be written exactly as a JSON number may be refused
+		}
+
 		w.fail("C11", "builder/valid-input-refused", "the client request builder refused valid input: "+err.Error())
 
 		return
@@ -1070,7 +1085,7 @@ func (w *bWorld) clientStep(d *bDID) {
 		for _, vv := range w.versions {
 			until := spec.Until
 			if spec.From != 0 && until == 0 {
-				until = spec.From + int64(vv.P.MaxOperationTimeDelta)
+				until = refmodel.SatAdd(spec.From, refmodel.DeltaOf(vv.P.MaxOperationTimeDelta))
 			}
 
 			w.expectedWindows[[2]int64{spec.From, until}] = true
@@ -1219,7 +1234,7 @@ func (w *bWorld) submit(op *bOp) {
 
 	mustRefuse := d.Suffix != "" && op.Type != operation.TypeCreate && w.deadPerModel(d)
 	op.Version = w.proto.CurrentVersion().P.GenesisTime
-	op.M.MaxDelta = int64(w.proto.CurrentVersion().P.MaxOperationTimeDelta)
+	op.M.MaxDelta = refmodel.DeltaOf(w.proto.CurrentVersion().P.MaxOperationTimeDelta)
 
 	// the unpublished copies this DID had before the submission (C15: a refused operation leaves no trace - it must not
 	// take anybody else's pending copy with it either)
@@ -2327,7 +2342,7 @@ func (w *bWorld) storedModelOpsRefs(d *bDID) ([]*refmodel.Op, []string) {
 
 		for _, v := range w.versions {
 			if v.P.GenesisTime == t.ProtocolVersion {
-				m.MaxDelta = int64(v.P.MaxOperationTimeDelta)
+				m.MaxDelta = refmodel.DeltaOf(v.P.MaxOperationTimeDelta)
 			}
 		}
 
